@@ -32,7 +32,9 @@ impl Axecutor {
         target: u64,
         variant: TraceVariant,
     ) -> Result<(), AxError> {
-        let instr_ip = self.reg_read_64(SupportedRegister::RIP)? - i.len() as u64;
+        let instr_ip = self
+            .reg_read_64(SupportedRegister::RIP)?
+            .wrapping_sub(i.len() as u64);
         let mut lvl = 0;
 
         if let Some(last) = self.state.trace.last_mut() {
@@ -113,7 +115,7 @@ impl Axecutor {
             if entry.count > 1 {
                 trace.push_str(&format!(
                     "{}{}: {} => {} ({} times)\n",
-                    "  ".repeat(entry.level as usize),
+                    "  ".repeat(entry.level.max(0) as usize),
                     instruction_symbol,
                     instruction,
                     target_symbol,
@@ -122,7 +124,7 @@ impl Axecutor {
             } else {
                 trace.push_str(&format!(
                     "{}{}: {} => {}\n",
-                    "  ".repeat(entry.level as usize),
+                    "  ".repeat(entry.level.max(0) as usize),
                     instruction_symbol,
                     instruction,
                     target_symbol,
